@@ -30,12 +30,15 @@ package main
 // of "next segment not found" when the writer stops, or of any other error).
 
 import (
+	"bytes"
 	"crypto/sha256"
 	"fmt"
 	"math/big"
 	"regexp"
 	"sort"
 	"strings"
+
+	"github.com/bluenviron/mediacommon/v2/pkg/formats/fmp4"
 )
 
 type failure struct {
@@ -321,6 +324,14 @@ func checkPair(res *pairResult, st *oracleStats) []failure {
 				sort.Strings(bad)
 				fail(cr.Attempt, "C09:tracks:no-supported-variant:"+strings.Join(bad, "+"),
 					"%s muxer with tracks %v (CODECS %v): a Client pointed at index.m3u8 reports no tracks: %q", vn, kindsOf(h), res.MuxCodecs, cr.Outcome)
+			case h.Variant == 1 && strings.Contains(cr.Outcome, "astits: no more packets") && firstSegmentLacksTrack(h, cr) >= 0:
+				// cause verified on the bytes served: the first segment this client downloaded lists the track in its
+				// PMT but holds no packet of it (mpegts.Reader.Initialize needs an ADTS header to learn the audio
+				// configuration and runs off the end of the segment)
+				ti := firstSegmentLacksTrack(h, cr)
+				fail(cr.Attempt, "C09:mpegts:tracks:not-reported:first-segment-without-data-of:"+kindNames[h.Tracks[ti].Kind],
+					"mpegts muxer with tracks %v, client pointed at %s: the first segment it downloaded (%s) holds no packet of track %d (%s); no tracks reported, the client ended with %q",
+					kindsOf(h), p.Target, firstTSPath(cr), ti, kindNames[h.Tracks[ti].Kind], cr.Outcome)
 			default:
 				fail(cr.Attempt, "C09:"+vn+":tracks:not-reported:"+errClass(cr.Outcome),
 					"%s muxer with tracks %v, client pointed at %s: no tracks reported, the client ended with %q", vn, kindsOf(h), p.Target, cr.Outcome)
@@ -379,7 +390,15 @@ func checkPair(res *pairResult, st *oracleStats) []failure {
 		// property's title); the clauses of the statement constrain only what is delivered, so this class is
 		// reported under its own signature, restricted to the error that names the content (finding F21,
 		// fixed by d590576 + c9db2ec: kept as a regression check).
-		if strings.Contains(cr.Outcome, "could not find data of leading track") {
+		if strings.Contains(cr.Outcome, "could not find data of leading track") && p.Target != "index" && h.Variant != 1 && firstBodyWithoutTracks(cr) {
+			// residue of F21 after c9db2ec, cause verified on the bytes served: the client was pointed directly at
+			// a rendition's media playlist and the FIRST part / segment it downloaded holds no track (no sample of
+			// the rendition fell into it); a stream processor that has not created its time converter does not
+			// skip it. A client attached a moment later plays.
+			fail(cr.Attempt, "C09:"+vn+":client-abort:first-body-without-tracks:rendition-playlist",
+				"%s muxer with tracks %v (part-min %d ms), client pointed at %s: the first part / segment it downloaded holds no track; after OnTracks the client stopped with %q",
+				vn, kindsOf(h), h.PartMin/1e6, p.Target, cr.Outcome)
+		} else if strings.Contains(cr.Outcome, "could not find data of leading track") {
 			fail(cr.Attempt, "C09:"+vn+":client-abort:could-not-find-data-of-leading-track",
 				"%s muxer with tracks %v (part-min %d ms), client pointed at %s: after OnTracks the client stopped with %q on a part / segment the muxer served",
 				vn, kindsOf(h), h.PartMin/1e6, p.Target, cr.Outcome)
@@ -520,3 +539,69 @@ func kindsOf(h *history) []string {
 	}
 	return out
 }
+
+func firstTSBody(cr *clientRun) *reqLog {
+	for _, e := range cr.Reqs {
+		if strings.HasSuffix(e.Path, ".ts") && e.Done && e.Status == 200 {
+			return e
+		}
+	}
+	return nil
+}
+
+func firstTSPath(cr *clientRun) string {
+	if e := firstTSBody(cr); e != nil {
+		return e.Path
+	}
+	return ""
+}
+
+// firstSegmentLacksTrack: index of a muxer track without a single TS packet in the first MPEG-TS segment the
+// client downloaded (mediacommon assigns PID 256 + track index), -1 if every track has data or nothing was
+// downloaded
+func firstSegmentLacksTrack(h *history, cr *clientRun) int {
+	e := firstTSBody(cr)
+	if e == nil || len(e.Body) == 0 || len(e.Body)%188 != 0 {
+		return -1
+	}
+	seen := make([]bool, len(h.Tracks))
+	for off := 0; off+188 <= len(e.Body); off += 188 {
+		pk := e.Body[off : off+188]
+		if pk[0] != 0x47 {
+			return -1
+		}
+		pid := int(pk[1]&0x1f)<<8 | int(pk[2])
+		if pid >= 256 && pid < 256+len(h.Tracks) {
+			seen[pid-256] = true
+		}
+	}
+	for i, s := range seen {
+		if !s {
+			return i
+		}
+	}
+	return -1
+}
+
+// firstBodyWithoutTracks: the first media body (segment or part, not the init) the client downloaded parses
+// as fMP4 fragments none of which holds a track
+func firstBodyWithoutTracks(cr *clientRun) bool {
+	for _, e := range cr.Reqs {
+		if !e.Done || e.Status != 200 || !strings.HasSuffix(e.Path, ".mp4") || strings.HasSuffix(e.Path, "_init.mp4") {
+			continue
+		}
+		var parts fmp4.Parts
+		if err := parts.Unmarshal(e.Body); err != nil {
+			return false
+		}
+		for _, p := range parts {
+			if len(p.Tracks) != 0 {
+				return false
+			}
+		}
+		return true
+	}
+	return false
+}
+
+var _ = bytes.NewReader
